@@ -808,3 +808,14 @@ func (r *Result) SortedOutcomes() []string {
 	})
 	return ks
 }
+
+// Panics lists the threads of a finished execution that ended by panicking.
+func (x *Exec) Panics() []*Thread {
+	var out []*Thread
+	for _, t := range x.threads {
+		if t.Panic != nil {
+			out = append(out, t)
+		}
+	}
+	return out
+}
